@@ -102,12 +102,26 @@ class ValueIn(Validator):
     def validate(self, element, state):
         try:
             found = element.value in self.valid_options
-        except TypeError:
-            # e.g. a non-text value tested against a text container
+        except (TypeError, ArithmeticError):
+            # e.g. a non-text value tested against a text container, or a
+            # signaling NaN compared with the options
             found = False
         if not found:
             return self.note_error(element, state, "fail")
         return True
+
+
+def _holds(test):
+    """True if the comparison *test()* holds.
+
+    A value that cannot be compared at all -- a decimal NaN signals
+    instead of answering -- does not satisfy any bound.
+
+    """
+    try:
+        return bool(test())
+    except ArithmeticError:
+        return False
 
 
 class Converted(Validator):
@@ -332,7 +346,9 @@ class ValueLessThan(Validator):
         self.boundary = boundary
 
     def validate(self, element, state):
-        if element.value is None or not element.value < self.boundary:
+        if element.value is None or not _holds(
+            lambda: element.value < self.boundary
+        ):
             return self.note_error(element, state, "failure")
         return True
 
@@ -370,7 +386,9 @@ class ValueAtMost(Validator):
         self.maximum = maximum
 
     def validate(self, element, state):
-        if element.value is None or not element.value <= self.maximum:
+        if element.value is None or not _holds(
+            lambda: element.value <= self.maximum
+        ):
             return self.note_error(element, state, "failure")
         return True
 
@@ -408,7 +426,9 @@ class ValueGreaterThan(Validator):
         self.boundary = boundary
 
     def validate(self, element, state):
-        if element.value is None or not element.value > self.boundary:
+        if element.value is None or not _holds(
+            lambda: element.value > self.boundary
+        ):
             return self.note_error(element, state, "failure")
         return True
 
@@ -446,7 +466,9 @@ class ValueAtLeast(Validator):
         self.minimum = minimum
 
     def validate(self, element, state):
-        if element.value is None or not element.value >= self.minimum:
+        if element.value is None or not _holds(
+            lambda: element.value >= self.minimum
+        ):
             return self.note_error(element, state, "failure")
         return True
 
@@ -511,13 +533,13 @@ class ValueBetween(Validator):
 
     def validate(self, element, state):
         if self.inclusive:
-            if element.value is None or (
-                not self.minimum <= element.value <= self.maximum
+            if element.value is None or not _holds(
+                lambda: self.minimum <= element.value <= self.maximum
             ):
                 return self.note_error(element, state, "failure_inclusive")
         else:
-            if element.value is None or (
-                not self.minimum < element.value < self.maximum
+            if element.value is None or not _holds(
+                lambda: self.minimum < element.value < self.maximum
             ):
                 return self.note_error(element, state, "failure_exclusive")
         return True
@@ -578,7 +600,7 @@ class MapEqual(Validator):
         elements = [element.find(name, single=True) for name in self.field_paths]
         fn = self.transform
         sample = fn(elements[0])
-        if all(fn(el) == sample for el in elements[1:]):
+        if _holds(lambda: all(fn(el) == sample for el in elements[1:])):
             return True
         labels = ", ".join(el.label for el in elements[:-1])
         last_label = elements[-1].label
